@@ -381,7 +381,26 @@ func StartNode() (*Child, error) {
 // StartArgv launches an arbitrary JSONL-speaking child.
 func StartArgv(argv []string, raceLog string, env ...string) (*Child, error) {
 	cmd := exec.Command(argv[0], argv[1:]...)
-	cmd.Env = append(os.Environ(), env...)
+	// Every lab child (Go and Node) runs in a zone that is not UTC and has a fractional offset unless the
+	// caller chooses one: emitted code that consults the local zone shows in whatever the check observes
+	// (C04 runs its codecs under UTC and two other zones explicitly).
+	hasTZ := false
+	for _, e := range env {
+		if strings.HasPrefix(e, "TZ=") {
+			hasTZ = true
+		}
+	}
+	base := os.Environ()
+	if !hasTZ {
+		kept := base[:0:0]
+		for _, e := range base {
+			if !strings.HasPrefix(e, "TZ=") {
+				kept = append(kept, e)
+			}
+		}
+		base = append(kept, "TZ=Pacific/Chatham")
+	}
+	cmd.Env = append(base, env...)
 	if raceLog != "" {
 		cmd.Env = append(cmd.Env, "GORACE=halt_on_error=0 log_path="+raceLog)
 	}
